@@ -348,3 +348,13 @@ Proof.
   apply gridrcb_boxes; auto.
   intros t Ht. rewrite Htol. apply thr_ok_flocq. lia.
 Qed.
+
+(* termination of the median search without the hypothesis on the thresholds *)
+Lemma median_terminates_all c : cfg_ok c -> tol_bits c = gridrcb_tolerance_bits ->
+  forall (T fuel : nat) fw ws tot,
+  ws <> [] -> (0 <= tot < 2 ^ 46)%Z -> (Nat.log2 (length ws) + 1 <= fuel)%nat ->
+  exists p w, weighted_median c fuel T fw ws tot = Ok (p, w).
+Proof.
+  intros Hc Htol T fuel fw ws tot Hne Htot Hf.
+  apply median_terminates_log2; auto. rewrite Htol. apply thr_ok_flocq. exact Htot.
+Qed.
